@@ -382,6 +382,47 @@ def check_join(ctx, base_s, ref_s, sig):
         ctx.fail("meaning_changed", case, "; ".join(f"{n}: expected {w!r} got {g!r}" for n, w, g in bad), fields=[x[0] for x in bad])
 
 
+def check_retained(ctx, t, sig):
+    """What a modifier RETAINS keeps its bytes: with_suffix keeps the stem (and every other segment), with_name / parent / '/' keep
+    the other segments, of a receiver whose name carries the unit t in its stem and in its extension."""
+    from yarl import URL
+
+    if has_surrogate(t) or "/" in t or "?" in t or "#" in t:
+        return
+    for base_s, enc in ((f"http://h/d{t}/x{t}y.e{t}f", False), (f"http://h/d{t}/x{t}y.e{t}f", True), (f"rel{t}/n{t}.s{t}", False), (f"http://h/{t}.{t}x", False)):
+        if enc and not (t.isascii() and t.isprintable() and " " not in t):
+            continue
+        b = guarded(URL, base_s, encoded=enc)
+        if is_exc(b):
+            continue
+        rname = b.raw_name
+        i = rname.rfind(".")
+        if not (0 < i < len(rname) - 1):
+            continue
+        stem, dirs = rname[:i], b.raw_path.split("/")[:-1]
+        case = {"regime": "retained", "base": base_s, "encoded": enc}
+        bad = []
+        for label, fn, want_last in (("with_suffix(.new)", lambda: b.with_suffix(".new"), pct_decode_bytes(stem) + b".new"), ("with_suffix('')", lambda: b.with_suffix(""), pct_decode_bytes(stem)),
+                                     ("with_suffix(.é x)", lambda: b.with_suffix(".é x"), pct_decode_bytes(stem) + ".é x".encode()), ("with_name(n)", lambda: b.with_name("n.m"), b"n.m"),
+                                     ("div", lambda: b / "k", b"k"), ("joinpath", lambda: b.joinpath("j", "k"), b"k")):
+            r_ = guarded(fn)
+            if is_exc(r_):
+                if r_.type != "ValueError":
+                    bad.append((label, "no exception", repr(r_)))
+                continue
+            segs = r_.raw_path.split("/")
+            keep = dirs if not label.startswith(("div", "joinpath")) else b.raw_path.split("/")
+            got_dirs = segs[: len(keep)]
+            if [pct_decode_bytes(x) for x in got_dirs] != [pct_decode_bytes(x) for x in keep]:
+                bad.append((label + ":kept segments", keep, got_dirs))
+            if pct_decode_bytes(segs[-1]) != want_last:
+                bad.append((label + ":last segment", want_last.decode("latin-1"), segs[-1]))
+        ctx.ev(sig + (enc, "ok" if not bad else "bad") if sig else None)
+        ctx.count("retained_checked")
+        if bad:
+            ctx.fail("meaning_changed", case, "; ".join(f"{n}: expected {w!r} got {g!r}" for n, w, g in bad[:3]), fields=[x[0] for x in bad])
+
+
 # ----------------------------------------------------------------------
 CTOR_POS = {
     "user": "http://{}@h/p", "password": "http://u:{}@h/p", "path": "http://h/a/{}/b", "path_last": "http://h/{}", "query": "http://h/p?k={}&{}=v", "fragment": "http://h/p#{}",
@@ -421,6 +462,7 @@ def run(ctx):
                     check_ctor(ctx, tmpl.replace("{}", t), ("ctor", pos, kind, b >> 3, nb))
                 for entry in DECODED_ENTRIES:
                     check_decoded(ctx, entry, t, (entry, kind, b >> 3, nb))
+                check_retained(ctx, t, ("retained", kind, b >> 3, nb))
                 check_join(ctx, f"http://h/d{t}/e{t}/f?bq#bf", f"g{t}/../h?{t}#{t}", ("join", kind, b >> 3, nb))
                 check_join(ctx, f"http://h/a%20b/c%2Fd%3F%23%25/{t}/f", "x", ("join-esc", kind, b >> 3, nb))
         # kept escapes (encoded delimiters, bytes >= 0x80, lower-case hex) placed around the compiled writer's buffer sizes: the
